@@ -1,14 +1,9 @@
 #!/bin/bash
-# Runs the repository's own test suite (guard off) and prints pass/fail counts.
+# Runs the repository's own test suite (guard off) on a copy of /repo's committed HEAD and compares with BASELINE.json.
 export GOFLAGS=-mod=mod GOPROXY=off GOSUMDB=off GOTOOLCHAIN=local
-cd "${1:-/repo}" && go test -mod=mod -json -vet=off -count=1 -timeout 25m ./... 2>&1 | python3 -c "
-import sys, json
-p=f=0; failed=[]
-for l in sys.stdin:
-    try: e=json.loads(l)
-    except: continue
-    if e.get('Test') and e.get('Action') in ('pass','fail'):
-        if e['Action']=='pass': p+=1
-        else: f+=1; failed.append(e['Package'].split('/')[-1]+'::'+e['Test'])
-print('pass',p,'fail',f, failed)
-"
+SRC="${1:-/repo}"
+D=$(mktemp -d /tmp/baseline.XXXXXX)
+git -C "$SRC" archive HEAD | tar -x -C "$D"
+cd "$D" && go test -mod=mod -json -vet=off -count=1 -timeout 40m ./... > "$D/out.json" 2>/dev/null
+python3 /verif/tools/summarize_tests.py "$D/out.json"
+rm -rf "$D"
